@@ -12,17 +12,40 @@ Step contracts (pre-state: an arbitrary open bundler with symbolic counters 1 <=
   _pack_seq_nums_into_stream_datum: seq_nums = [next, next + width), counters untouched; pre-filled seq_nums or a
       width different from the previous one raise EventModelValueError
   close_run: stop.num_events[s] = next(s) - 1
+  monitor update / interruption record: exactly one event of its stream, seq_num = next, next' = next + 1
+  save with a stream datum: the datum's seq_nums = [seq_num of the event saved with it, + 1)
+  collect on a flyer handing over events / event pages (old-style describe_collect streams or a pre-declared stream; the real
+      collect, _describe_collect, _collect_events, _collect_event_pages): the n points handed over for a stream are numbered
+      next .. next + n - 1 in hand-over order by the engine's counter - whatever the device puts into its partial events, its own
+      seq_num included (event_model's compose_event honours a seq_num keyword, so the bundler must never pass the device's through) -
+      next' = next + n, other streams untouched, a new stream starts at 1; a collect without events advances the counter by the
+      frames its stream datums declare
+  rewind, widened: the pre-state holds every kind of stream (create/read/save, monitor, interruptions, old-style flyer events,
+      stream-datum collects through both no-event branches), each created by the real operation, each possibly WITHOUT a snapshot
+      entry (created after the last checkpoint); a second rewind ends in the same state; the events emitted after the rewind are
+      numbered from the restored counters (the dictionary stays the one event_model's composers count in)
 Lemma (z3, over the step contracts): the emitted seq_nums of a stream are always exactly 1..hi-1 with next <= hi, a
 seq_num is re-emitted only after a rewind of a replayable stream, and for never-replayed streams next == hi (no
-duplicates); at stop num_events = hi - 1 when next == hi.
+duplicates, stream-datum ranges and collected batches start exactly where the numbering ended); at stop num_events = hi - 1
+when next == hi.
 """
 from .lib import *
 from .bundler_lib import *
 
 PROP = "C05"
 Q = f"{MB}:RunBundler"
-TRUSTED = EM_ASSUMPTIONS + ["stream names are used only as dictionary keys (concrete representatives 'primary', 'mon', 'interruptions', 'fly')"]
-NOT_DECIDED = "old-style collect paths (_collect_events / _collect_event_pages); that every pause/suspension schedule reaches rewind with the right snapshot (T2, C04)"
+TRUSTED = EM_ASSUMPTIONS + [
+    "stream names are used only as dictionary keys (concrete representatives 'primary', 'mon', 'interruptions', 'fly', 'fly2', 'sd', 'sd2')",
+    "A-EVENTMODEL also covers compose_event's seq_num/uid/time keywords, compose_event_page and pack_event_page as stated in contracts/bundler_lib.py",
+    "iterate_maybe_async(it) yields exactly the items of the device's (a)synchronous iterator, in order, and does not suspend; a flyer handing over "
+    "events writes no external assets (maybe_collect_asset_docs yields nothing for it); itertools.combinations, asyncio.gather (results in order), "
+    "check_supports / maybe_await / maybe_update_hints are replaced by their contracts",
+    "collect shapes are enumerated: per collect 0-3 partial events (two streams) or 0-2 event pages of 1-2 points; the extra keys a device adds are "
+    "enumerated (none, filled, seq_num, both); values, device numbering, counters and snapshots are unbounded symbolic values",
+    "invariant assumed and re-established: _interruptions_counter == next('interruptions') - 1",
+]
+NOT_DECIDED = ("that every pause/suspension schedule reaches rewind with the right snapshot (T2, C04); flyers that are both event-collectable and write "
+               "stream assets in the same collect; key validation of partial events (event_model)")
 KF = "C05-rewind-rolls-back-never-replayed-streams"
 
 
@@ -43,13 +66,14 @@ def symbolic_state(I, env, b, streams, with_copy=True):
     return nxt, snap
 
 
-def declare(I, env, b, name, keys=("x",)):
-    """compose a descriptor for stream `name` through the real _prepare_stream"""
+def declare(I, env, b, name, keys=("x",), external=()):
+    """compose a descriptor for stream `name` through the real _prepare_stream (`external`: keys whose data go to a stream resource)"""
     dev = Opaque(f"dev_{name}", {"token": "dev", "attrs": {"name": f"dev_{name}", "hints": {"fields": list(keys)}}, "truth": True,
                                  "isinstance_default": False, "hasattr": {"hints": True}})
     for cache in ("_config_values_cache", "_config_ts_cache", "_config_desc_cache"):
         b.attrs[cache][dev] = {}
     dks = {k: {"dtype": "number", "shape": [], "source": "dev"} for k in keys}
+    dks.update({k: {"dtype": "array", "shape": [1], "source": "dev", "external": "STREAM:"} for k in external})
     b._describe_cache[dev] = dks
     r = call_async(I, I.getattr(b, "_prepare_stream"), name, {dev: dks})
     if r[0] != "ok":
@@ -76,16 +100,33 @@ def prepare_stream(I):
             {"replay": "bundler.counters"})
 
 
-@task("save.seq_num", PROP, functions=[f"{Q}.save", f"{Q}.create", f"{Q}.read"],
-      expect=[f"{Q}.save#ensures[event seq_num == next(stream) and next' = next + 1; other streams untouched]"])
+S_DATUM = f"{Q}.save#ensures[a stream datum saved with an event carries seq_nums = [seq_num of that event, + 1): contiguous with the stream's event numbering]"
+
+
+@task("save.seq_num", PROP, functions=[f"{Q}.save", f"{Q}.create", f"{Q}.read", f"{Q}._pack_external_assets", f"{Q}._pack_seq_nums_into_stream_datum"],
+      expect=[f"{Q}.save#ensures[event seq_num == next(stream) and next' = next + 1; other streams untouched]", S_DATUM])
 def save_seq(I):
     w = I.w
     env = Env(I)
     b, uid = opened_bundler(I, env)
-    dev, _ = declare(I, env, b, "primary")
+    with_datum = w.choose([False, True], "the device read writes a stream datum for this event")
+    dev, _ = declare(I, env, b, "primary", external=("img",) if with_datum else ())
     declare(I, env, b, "other", keys=("y",))
     nxt, snap = symbolic_state(I, env, b, ["primary", "other"])
-    w.stubs[(MB, "maybe_collect_asset_docs")] = native(lambda I_, a, k: [])
+    w.stubs[(MB, "StreamRange")] = native(lambda I_, a, k: dict(k))
+    w.stubs[(MB, "EventModelValueError")] = env.value_error
+    i0 = w.int("idx_start")
+    w.add(i0 >= 0)
+    first_datum = w.choose([True, False], "first datum of its stream resource") if with_datum else True
+    assets = []
+    if with_datum:
+        if first_datum:
+            assets.append(("stream_resource", {"uid": "sr", "data_key": "img", "mimetype": "x", "uri": "file://x", "parameters": {}}))
+        else:
+            b._stream_resource_data_keys["sr"] = "img"
+        assets.append(("stream_datum", {"uid": "sr/0", "stream_resource": "sr", "descriptor": "", "indices": {"start": i0, "stop": i0 + 1},
+                                        "seq_nums": {"start": 0, "stop": 0}}))
+    w.stubs[(MB, "maybe_collect_asset_docs")] = native(lambda I_, a, k: list(assets))
     call_async(I, I.getattr(b, "create"), MsgVal("create", None, (), {"name": "primary"}, None))
     reading = {"x": {"value": w.real("v"), "timestamp": w.real("ts")}}
     I.call_hooks[f"{Q}._ensure_cached"] = lambda I_, f, a, k: ret(Ready(None))
@@ -97,7 +138,17 @@ def save_seq(I):
     w.check(f"{Q}.save#ensures[event seq_num == next(stream) and next' = next + 1; other streams untouched]",
             And(ok, Eq(evs[0]["seq_num"], nxt["primary"]) if ok else False,
                 Eq(b._sequence_counters["primary"], nxt["primary"] + 1), Eq(b._sequence_counters["other"], nxt["other"]),
-                Eq(b._sequence_counters_copy["primary"], snap["primary"])), {"replay": "bundler.counters"})
+                Eq(b._sequence_counters_copy["primary"], snap["primary"])),
+            {"replay": "bundler.save_datum" if with_datum else "bundler.counters", "first_datum": first_datum})
+    datums = [d for n, d in env.emitted if n == "stream_datum"]
+    if with_datum:
+        names = [n for n, d in env.emitted if n in ("stream_datum", "event")]
+        w.check(S_DATUM, And(ok, len(datums) == 1, names == ["stream_datum", "event"],
+                             *([Eq(datums[0]["seq_nums"]["start"], evs[0]["seq_num"]), Eq(datums[0]["seq_nums"]["stop"], evs[0]["seq_num"] + 1),
+                                Eq(datums[0]["indices"]["start"], i0), datums[0]["descriptor"] == evs[0]["descriptor"]] if ok and len(datums) == 1 else [False])),
+                {"replay": "bundler.save_datum", "first_datum": first_datum})
+    else:
+        w.check(S_DATUM, len(datums) == 0)
 
 
 @task("reset_checkpoint_state", PROP, functions=[f"{Q}.reset_checkpoint_state", f"{Q}.clear_checkpoint"],
@@ -110,44 +161,152 @@ def reset_checkpoint(I):
     nxt, snap = symbolic_state(I, env, b, ["primary", "mon"], with_copy=had_copy)
     call_method(I, b, "reset_checkpoint_state")
     w.check(f"{Q}.reset_checkpoint_state#ensures[snap' = next for every stream, counters unchanged]",
-            And(set(b._sequence_counters_copy) == {"primary", "mon"}, *[Eq(b._sequence_counters_copy[s], nxt[s]) for s in nxt],
-                *[Eq(b._sequence_counters[s], nxt[s]) for s in nxt]), {"replay": "bundler.counters"})
+            And(set(b._sequence_counters_copy) == {"primary", "mon"}, *[Eq(b._sequence_counters_copy.get(s, 0), nxt[s]) for s in nxt],
+                *[Eq(b._sequence_counters.get(s, 0), nxt[s]) for s in nxt]), {"replay": "bundler.checkpoint_state", "had_copy": had_copy})
     call_async(I, I.getattr(b, "clear_checkpoint"), MsgVal("clear_checkpoint", None, (), {}, None))
     w.check(f"{Q}.clear_checkpoint#ensures[snapshot dropped, counters unchanged]",
             And(len(b._sequence_counters_copy) == 0, *[Eq(b._sequence_counters[s], nxt[s]) for s in nxt]))
 
 
-@task("rewind", PROP, functions=[f"{Q}.rewind", f"{Q}.monitor", f"{Q}.record_interruption"],
+@task("rewind", PROP, functions=[f"{Q}.rewind", f"{Q}.monitor", f"{Q}.open_run", f"{Q}._describe_collect", f"{Q}.collect", f"{Q}._prepare_stream"],
       expect=[f"{Q}.rewind#ensures[replayable streams: next' = snap (1 if created after the checkpoint); bundling' = False]",
-              f"{Q}.rewind#ensures[never-replayed streams (interruptions, monitors, collect) keep next' = next]"])
+              f"{Q}.rewind#ensures[never-replayed streams (interruptions, monitors, collect) keep next' = next]",
+              f"{Q}.rewind#ensures[a second rewind before the next checkpoint ends in the same state: the snapshot survives a rewind]",
+              f"{Q}.rewind#ensures[the events after a rewind are numbered from the restored counters (interruptions: next, replayed stream: snap)]",
+              f"{Q}.collect#ensures[a collect without events counts the frames its stream datums declare]"],
+      covers=[f"no snapshot of {s}" for s in ("primary", "mon", "interruptions", "fly", "sd", "sd2")])
 def rewind(I):
+    """pre-state: every kind of stream the statement names, each brought into existence by the real operation that creates it -
+    'primary' (create/read/save: replayable), 'mon' (monitor), 'interruptions' (open_run), 'fly' (events handed over by a flyer,
+    old-style describe_collect), 'sd' (pre-declared stream fed by stream datums only) - with arbitrary counters 1 <= snap <= next,
+    and any one of them (or all) without a snapshot entry: created after the last checkpoint (a fly section without a checkpoint;
+    'interruptions' is created after open_run's own snapshot)"""
     w = I.w
     env = Env(I)
+    collect_stubs(I, env)
     b, uid = opened_bundler(I, env, record_interruptions=True)
     declare(I, env, b, "primary")
+    # events handed over by a flyer (doubly nested describe_collect): the stream is described by the real _describe_collect
+    fl = make_flyer("events", {"fly": {"fx": DK()}}, [])
+    r = call_async(I, I.getattr(b, "_describe_collect"), fl)
+    if r[0] != "ok":
+        raise EngineError(f"_describe_collect failed in harness: {r[1].attrs}")
+    # a pre-declared stream whose detector writes stream datums only: one real collect (the no-event branch counts the frames itself)
+    det = Opaque("sd_det", {"token": "dev", "truth": True, "isinstance_default": False, "isinstance": {"Collectable": True, "WritesStreamAssets": True, "Flyable": True},
+                            "attrs": {"name": "sd_det", "parent": None}, "hasattr_default": False, "hasattr": {"name": True}})
+    for cache in ("_config_values_cache", "_config_ts_cache", "_config_desc_cache"):
+        b.attrs[cache][det] = {}
+    r = call_async(I, I.getattr(b, "_prepare_stream"), "sd", {det: {"img": {"dtype": "array", "shape": [1], "source": "x", "external": "STREAM:"}}})
+    if r[0] != "ok":
+        raise EngineError(f"_prepare_stream failed in harness: {r[1].attrs}")
+    b._declared_stream_names[frozenset([det])] = ["sd"]
+    w.stubs[(MB, "StreamRange")] = native(lambda I_, a, k: dict(k))
+    w.stubs[(MB, "EventModelValueError")] = env.value_error
+    sd_docs = [("stream_resource", {"uid": "sr", "data_key": "img", "mimetype": "x", "uri": "file://x", "parameters": {}}),
+               ("stream_datum", {"uid": "sr/0", "stream_resource": "sr", "descriptor": "", "indices": {"start": 0, "stop": 3}, "seq_nums": {"start": 0, "stop": 0}})]
+    env.asset_docs[id(det)] = sd_docs
+    r = call_async(I, I.getattr(b, "collect"), MsgVal("collect", det, (), {"name": "sd"}, None))
+    if r[0] != "ok":
+        raise EngineError(f"collect failed in harness: {r[1].attrs}")
+    # ... and one whose single detector is neither event-collectable nor WritesStreamAssets (the other no-event branch of collect)
+    det2 = Opaque("sd2_det", {"token": "dev", "truth": True, "isinstance_default": False, "isinstance": {"Collectable": True, "Flyable": True},
+                              "attrs": {"name": "sd2_det", "parent": None}, "hasattr_default": False, "hasattr": {"name": True}})
+    for cache in ("_config_values_cache", "_config_ts_cache", "_config_desc_cache"):
+        b.attrs[cache][det2] = {}
+    r = call_async(I, I.getattr(b, "_prepare_stream"), "sd2", {det2: {"img2": {"dtype": "array", "shape": [1], "source": "x", "external": "STREAM:"}}})
+    if r[0] != "ok":
+        raise EngineError(f"_prepare_stream failed in harness: {r[1].attrs}")
+    b._declared_stream_names[frozenset([det2])] = ["sd2"]
+    sd2_docs = [("stream_resource", {"uid": "sr2", "data_key": "img2", "mimetype": "x", "uri": "file://x", "parameters": {}}),
+                ("stream_datum", {"uid": "sr2/0", "stream_resource": "sr2", "descriptor": "", "indices": {"start": 0, "stop": 2}, "seq_nums": {"start": 0, "stop": 0}})]
+    env.asset_docs[id(det2)] = sd2_docs
+    r = call_async(I, I.getattr(b, "collect"), MsgVal("collect", det2, (), {"name": "sd2"}, None))
+    if r[0] != "ok":
+        raise EngineError(f"collect failed in harness: {r[1].attrs}")
+    w.check(f"{Q}.collect#ensures[a collect without events counts the frames its stream datums declare]",
+            And(Eq(b._sequence_counters["sd"], 4), Eq(b._sequence_counters["sd2"], 3)))
     # a monitor stream, created through the real monitor()
     sig = Opaque("sig", {"token": "dev", "attrs": {"name": "sig", "hints": {}}, "truth": True, "isinstance": {"Subscribable": True, "Readable": True, "Configurable": False},
                          "isinstance_default": False, "hasattr": {"hints": False},
                          "methods": {"subscribe": lambda I_, o, a, k: None, "describe": lambda I_, o, a, k: {"sig": {"dtype": "number", "shape": [], "source": "s"}}}})
-    w.stubs[(MB, "check_supports")] = native(lambda I_, a, k: a[0])
-    w.stubs[(MB, "maybe_await")] = native(lambda I_, a, k: Ready(a[0]))
-    w.stubs[(MB, "maybe_update_hints")] = native(lambda I_, a, k: None)
-    w.stubs["asyncio.gather"] = lambda I_, a, k: Ready([run_coro(I_, c) if isinstance(c, GenObj) else c for c in a])
     r = call_async(I, I.getattr(b, "monitor"), MsgVal("monitor", sig, (), {"name": "mon"}, None))
     if r[0] != "ok":
         raise EngineError(f"monitor failed in harness: {r[1].attrs}")
-    created_after = w.choose([False, True], "primary created after the checkpoint")
-    nxt, snap = symbolic_state(I, env, b, ["primary", "mon", "interruptions"])
-    if created_after:
-        del b._sequence_counters_copy["primary"]
+    never = ["mon", "interruptions", "fly", "sd", "sd2"]
+    no_snapshot = w.choose([None, "primary"] + never + ["all"], "stream(s) created after the last checkpoint (no snapshot entry)")
+    nxt, snap = symbolic_state(I, env, b, ["primary"] + never)
+    b.attrs["_interruptions_counter"] = nxt["interruptions"] - 1       # (invariant: records emitted so far)
+    gone = list(nxt) if no_snapshot == "all" else [no_snapshot] if no_snapshot else []
+    for s in gone:
+        del b._sequence_counters_copy[s]
+        w.cover(f"no snapshot of {s}")
     b.attrs["bundling"] = w.choose([True, False], "bundle open")
+    rp = {"replay": "bundler.rewind_state", "no_snapshot": gone}
     call_method(I, b, "rewind")
-    want_primary = 1 if created_after else snap["primary"]
+    want_primary = 1 if "primary" in gone else snap["primary"]
     w.check(f"{Q}.rewind#ensures[replayable streams: next' = snap (1 if created after the checkpoint); bundling' = False]",
-            And(Eq(b._sequence_counters["primary"], want_primary), b.bundling is False), {"replay": "bundler.rewind"})
+            And(Eq(b._sequence_counters.get("primary", 0), want_primary), b.bundling is False), rp)
     w.check_kf(f"{Q}.rewind#ensures[never-replayed streams (interruptions, monitors, collect) keep next' = next]",
-               And(Eq(b._sequence_counters["mon"], nxt["mon"]), Eq(b._sequence_counters["interruptions"], nxt["interruptions"])),
-               KF, True, {"replay": "bundler.rewind"})
+               And(*[Eq(b._sequence_counters.get(s, 0), nxt[s]) for s in never]), KF, True, rp)
+    # the snapshot itself survives the rewind (lemma: snap' = snap): a second interruption before the next checkpoint ends in the same state
+    first = dict(b._sequence_counters)
+    call_method(I, b, "rewind")
+    w.check(f"{Q}.rewind#ensures[a second rewind before the next checkpoint ends in the same state: the snapshot survives a rewind]",
+            And(set(b._sequence_counters) == set(first), *[Eq(b._sequence_counters.get(s, 0), v) for s, v in first.items()]), rp)
+    # the counters restored are the ones the next events are numbered from (the dictionary is shared with event_model's composers)
+    env.emitted.clear()
+    r1 = catch(I, I.getattr(b, "record_interruption"), "resume")
+    I.call_hooks[f"{Q}._ensure_cached"] = lambda I_, f, a, k: ret(Ready(None))
+    dev = list(b._descriptor_objs["primary"])[0]
+    r2 = call_async(I, I.getattr(b, "create"), MsgVal("create", None, (), {"name": "primary"}, None))
+    r3 = call_async(I, I.getattr(b, "read"), MsgVal("read", dev, (), {}, None), {"x": {"value": w.real("v"), "timestamp": w.real("ts")}})
+    r4 = call_async(I, I.getattr(b, "save"), MsgVal("save", None, (), {}, None))
+    evs = events(env)
+    ok = all(r[0] == "ok" for r in (r1, r2, r3, r4)) and len(evs) == 2
+    w.check(f"{Q}.rewind#ensures[the events after a rewind are numbered from the restored counters (interruptions: next, replayed stream: snap)]",
+            And(ok, *([Eq(evs[0]["seq_num"], nxt["interruptions"]), Eq(evs[1]["seq_num"], want_primary),
+                       Eq(b._sequence_counters.get("interruptions", 0), nxt["interruptions"] + 1),
+                       Eq(b._sequence_counters.get("primary", 0), want_primary + 1)] if ok else [False])), rp)
+
+
+EMIT = f"{Q}#ensures[a monitor update / an interruption record is exactly one event of its stream with seq_num == next(stream); next' = next + 1; other streams and the snapshot untouched]"
+
+
+@task("emission.never-replayed", PROP, functions=[f"{Q}.monitor", f"{Q}.monitor.emit_event", f"{Q}.record_interruption", f"{Q}.open_run"], expect=[EMIT],
+      covers=["monitor update", "interruption record"])
+def emission(I):
+    w = I.w
+    env = Env(I)
+    collect_stubs(I, env)
+    b, uid = opened_bundler(I, env, record_interruptions=True)
+    declare(I, env, b, "primary")
+    cbs = []
+    sig = Opaque("sig", {"token": "dev", "attrs": {"name": "sig", "hints": {}}, "truth": True, "isinstance": {"Subscribable": True, "Readable": True, "Configurable": False},
+                         "isinstance_default": False, "hasattr": {"hints": False},
+                         "methods": {"subscribe": lambda I_, o, a, k: cbs.append(a[0]), "describe": lambda I_, o, a, k: {"sig": {"dtype": "number", "shape": [], "source": "s"}},
+                                     "read": lambda I_, o, a, k: {"sig": {"value": I_.w.real("mon_v", fresh=True), "timestamp": I_.w.real("mon_ts", fresh=True)}}}})
+    r = call_async(I, I.getattr(b, "monitor"), MsgVal("monitor", sig, (), {"name": "mon"}, None))
+    if r[0] != "ok" or len(cbs) != 1:
+        raise EngineError(f"monitor failed in harness: {r!r}")
+    descs = {d["name"]: d["uid"] for n, d in env.emitted if n == "descriptor"}
+    nxt, snap = symbolic_state(I, env, b, ["primary", "mon", "interruptions"])
+    b.attrs["_interruptions_counter"] = nxt["interruptions"] - 1       # (invariant: records emitted so far; kept below)
+    what = w.choose(["monitor update: the device is read", "monitor update: the readings are passed", "interruption record"], "event")
+    env.emitted.clear()
+    if what == "interruption record":
+        s = "interruptions"
+        r = catch(I, I.getattr(b, "record_interruption"), w.choose(["pause", "resume", "suspend"], "content"))
+        w.cover("interruption record")
+    else:
+        s = "mon"
+        args = () if what.endswith("read") else ({"sig": {"value": w.real("passed_v"), "timestamp": w.real("passed_ts")}},)
+        r = catch(I, cbs[0], *args)
+        w.cover("monitor update")
+    evs = events(env)
+    ok = r[0] == "ok" and len(env.emitted) == 1 and len(evs) == 1 and evs[0]["descriptor"] == descs.get(s)
+    w.check(EMIT, And(ok, Eq(evs[0]["seq_num"], nxt[s]) if ok else False, *[Eq(b._sequence_counters.get(x, 0), nxt[x] + (1 if x == s else 0)) for x in nxt],
+                      Eq(I.getattr(b, "_interruptions_counter"), b._sequence_counters.get("interruptions", 0) - 1),
+                      *[Eq(b._sequence_counters_copy.get(x, 0), snap[x]) for x in snap]), {"replay": "bundler.emission", "what": what})
 
 
 @task("_pack_seq_nums_into_stream_datum", PROP, functions=[f"{Q}._pack_seq_nums_into_stream_datum"],
@@ -184,6 +343,198 @@ def pack_seq_nums(I):
                 Eq(b._sequence_counters["fly"], nxt["fly"])), {"replay": "bundler.counters"})
 
 
+# ------------------------------------------------------------------------------------------------ events handed over by a flyer
+# `collect` on an EventCollectable / EventPageCollectable flyer: the flyer hands over *partial* events (data, timestamps, time and
+# whatever else the device chooses to put in: filled, uid, its own seq_num ...).  From the statement: the numbering of a stream is
+# 1..N by the engine's counter of that stream - so the events handed over are numbered next, next + 1, ... in hand-over order
+# whatever the device says, the counter advances by exactly their number, and - the flyer hands over new data at every collect,
+# nothing of it is re-taken - a rewind must not roll such a stream back.
+E_NUM = (f"{Q}.collect#ensures[events handed over by a flyer are numbered next, next + 1, ... per stream in hand-over order by the engine's counter, "
+         "whatever numbering the device supplies; next' = next + n; other streams untouched]")
+E_NEW = f"{Q}.collect#ensures[a stream first described by collect is numbered from 1]"
+E_REW = f"{Q}.collect#ensures[a rewind after the collect keeps the stream's numbering: events handed over by a flyer are not re-taken]"
+KF_DECL = "C05-declared-collect-events-renumbered"
+DK = lambda: {"dtype": "number", "shape": [], "source": "sim"}   # noqa: E731
+KEYS_OF = {"fly": ["fx"], "fly2": ["fy", "fz"]}
+
+
+def collect_stubs(I, env):
+    import itertools
+    w = I.w
+    w.stubs[(MB, "check_supports")] = native(lambda I_, a, k: a[0])
+    w.stubs[(MB, "maybe_await")] = native(lambda I_, a, k: Ready(a[0]))
+    w.stubs[(MB, "maybe_update_hints")] = native(lambda I_, a, k: None)
+    w.stubs["asyncio.gather"] = lambda I_, a, k: Ready([run_coro(I_, c) if isinstance(c, GenObj) else c for c in a])
+    w.stubs["itertools.combinations"] = lambda I_, a, k: list(itertools.combinations(list(a[0]), a[1]))
+    w.stubs[(MB, "iterate_maybe_async")] = native(lambda I_, a, k: list(a[0]))       # yields the items of the device's iterator, in order
+    # asset documents per device (none unless a harness registers some: flyers handing over events write no external assets; C45)
+    env.asset_docs = {}
+    w.stubs[(MB, "maybe_collect_asset_docs")] = native(lambda I_, a, k: list(env.asset_docs.get(id(a[1]), [])))
+
+
+def make_flyer(kind, describe_collect, batches):
+    """a flyer that is EventCollectable (kind 'events') or EventPageCollectable ('pages'); the k-th collect() / collect_pages()
+    hands over batches[k]"""
+    calls = [0]
+
+    def hand_over(I_, o, a, k):
+        calls[0] += 1
+        return list(batches[calls[0] - 1])
+    return Opaque("flyer", {"token": "dev", "truth": True, "isinstance_default": False,
+                            "isinstance": {"Collectable": True, "Flyable": True, "EventCollectable": kind == "events",
+                                           "EventPageCollectable": kind == "pages", "WritesStreamAssets": False,
+                                           "WritesExternalAssets": False, "Configurable": False},
+                            "attrs": {"name": "flyer", "parent": None}, "hasattr_default": False, "hasattr": {"name": True},
+                            "methods": {"describe_collect": lambda I_, o, a, k: describe_collect, "collect": hand_over, "collect_pages": hand_over}})
+
+
+def hand_over_batch(w, kind, tag, shape, keys_of, extras):
+    """the documents of one collect.  shape: kind 'events': a tuple of stream names, one partial event each; kind 'pages': a tuple
+    of (stream, number of points), one partial event page each.  Values, device times and - with 'seq_num' among the extras - the
+    device's own numbering are unconstrained symbols.  -> (documents, {stream: [the data symbols in hand-over order]})"""
+    docs, order = [], {}
+    for i, item in enumerate(shape):
+        s, n = (item, None) if kind == "events" else item
+        keys = keys_of[s]
+        pts = [{key: w.real(f"v_{tag}_{i}_{j}_{key}") for key in keys} for j in range(n or 1)]
+        order.setdefault(s, []).extend(p[keys[0]] for p in pts)
+        dev_seq = [w.int(f"dev_seq_{tag}_{i}_{j}") for j in range(n or 1)]
+        if kind == "events":
+            d = {"data": dict(pts[0]), "timestamps": {key: w.real(f"ts_{tag}_{i}_{key}") for key in keys}, "time": w.real(f"time_{tag}_{i}")}
+            if "filled" in extras:
+                d["filled"] = {key: True for key in keys}
+            if "seq_num" in extras:
+                d["seq_num"] = dev_seq[0]
+        else:
+            d = {"data": {key: [p[key] for p in pts] for key in keys}, "timestamps": {key: [w.real(f"ts_{tag}_{i}_{j}_{key}") for j in range(n)] for key in keys},
+                 "time": [w.real(f"time_{tag}_{i}_{j}") for j in range(n)]}
+            if "filled" in extras:
+                d["filled"] = {key: [True] * n for key in keys}
+            if "seq_num" in extras:
+                d["seq_num"] = list(dev_seq)
+        docs.append(d)
+    return docs, order
+
+
+def numbered_as(I, env, b, desc_uid, order, start):
+    """the event pages emitted (env.emitted) number, per stream, the points handed over as start[s], start[s] + 1, ... in order"""
+    pages = [d for n, d in env.emitted if n == "event_page"]
+    if any(n == "event" for n, d in env.emitted):
+        return False
+    cond = True
+    for s, vals in order.items():
+        mine = [p for p in pages if p["descriptor"] == desc_uid[s]]
+        seqs = [x for p in mine for x in p["seq_num"]]
+        key = KEYS_OF[s][0]
+        got =[x for p in mine for x in p["data"].get(key, [])]
+        if len(seqs) != len(vals) or len(got) != len(vals) or any(g is not v for g, v in zip(got, vals)):
+            return False
+        cond = And(cond, *[Eq(q, start[s] + j) for j, q in enumerate(seqs)], Eq(b._sequence_counters[s], start[s] + len(vals)))
+    if {p["descriptor"] for p in pages} - {desc_uid[s] for s in order}:
+        return False
+    return cond
+
+
+SHAPES = {
+    ("events", False): [("fly",), ("fly", "fly"), ("fly", "fly2"), ("fly2", "fly", "fly"), ()],
+    ("events", True): [("fly",), ("fly", "fly"), ()],
+    ("pages", False): [(("fly", 1),), (("fly", 2),), (("fly", 1), ("fly2", 2)), (("fly", 2), ("fly", 1)), ()],
+    ("pages", True): [(("fly", 1),), (("fly", 2), ("fly", 1)), ()],
+}
+EXTRAS = [(), ("filled",), ("seq_num",), ("filled", "seq_num")]
+
+
+def _mk_collect(kind, declared):
+    label = f"collect.{kind}[{'pre-declared stream' if declared else 'old-style describe_collect'}]"
+
+    @task(label, PROP, functions=[f"{Q}.collect", f"{Q}._collect_events" if kind == "events" else f"{Q}._collect_event_pages", f"{Q}._describe_collect",
+                                  f"{Q}.declare_stream", f"{Q}._prepare_stream", f"{Q}._pack_external_assets", f"{Q}.rewind",
+                                  f"{Q}._format_datakeys_with_stream_name", f"{Q}.get_external_data_keys"],
+          expect=[E_NUM, E_NEW, E_REW], covers=["device numbering supplied", "stream created after the checkpoint", "nothing handed over"],
+          bounded=None)
+    def t(I):
+        w = I.w
+        env = Env(I)
+        collect_stubs(I, env)
+        b, uid = opened_bundler(I, env)
+        declare(I, env, b, "primary")
+        streams = ["fly"] if declared else ["fly", "fly2"]
+        keys_of = KEYS_OF
+        extras = w.choose(EXTRAS, "what the device adds to its partial events")
+        shape2 = w.choose(SHAPES[(kind, declared)], "second collect hands over")
+        shape1 = (("fly", "fly2", "fly") if kind == "events" else (("fly", 2), ("fly2", 1)))
+        if declared:
+            shape1 = ("fly", "fly") if kind == "events" else (("fly", 2),)
+        docs1, order1 = hand_over_batch(w, kind, "a", shape1, keys_of, extras)
+        docs2, order2 = hand_over_batch(w, kind, "b", shape2, keys_of, extras)
+        dc = {"fx": DK()} if declared else {s: {key: DK() for key in keys_of[s]} for s in streams}
+        fl = make_flyer(kind, dc, [docs1, docs2])
+        kw = {}
+        if declared:
+            r = call_async(I, I.getattr(b, "declare_stream"), MsgVal("declare_stream", None, (fl,), {"name": "fly", "collect": True}, None))
+            if r[0] != "ok":
+                raise EngineError(f"declare_stream failed in harness: {r[1].attrs}")
+            if w.choose([True, False], "collect names the stream"):
+                kw = {"name": "fly"}
+        rp = {"replay": "bundler.collect_events", "kind": kind, "declared": declared, "named": bool(kw), "extras": list(extras),
+              "shape1": shape1, "shape2": shape2}
+        # --- first collect: the streams are new
+        env.emitted.clear()
+        r = call_async(I, I.getattr(b, "collect"), MsgVal("collect", fl, (), dict(kw), None))
+        if r[0] != "ok":
+            w.fail(f"{Q}.collect#raises[nothing for well-formed partial events]", dict(rp, raised=repr(r[1]), args=repr(r[1].attrs.get("args"))[:200]))
+            return
+        desc_uid = {s: I.getattr(b._descriptors[s], "descriptor_doc")["uid"] for s in streams}
+        w.check(E_NEW, numbered_as(I, env, b, desc_uid, order1, {s: 1 for s in streams}), dict(rp, clause="new"))
+        # --- a later collect, from an arbitrary state of the counters
+        nxt, snap = symbolic_state(I, env, b, ["primary"] + streams)
+        env.emitted.clear()
+        r = call_async(I, I.getattr(b, "collect"), MsgVal("collect", fl, (), dict(kw), None))
+        if r[0] != "ok":
+            w.fail(f"{Q}.collect#raises[nothing for well-formed partial events]", dict(rp, raised=repr(r[1]), args=repr(r[1].attrs.get("args"))[:200]))
+            return
+        if "seq_num" in extras and shape2:
+            w.cover("device numbering supplied")
+        if not shape2:
+            w.cover("nothing handed over")
+        untouched = [s for s in ["primary"] + streams if s not in order2]
+        w.check(E_NUM, And(numbered_as(I, env, b, desc_uid, order2, nxt), *[Eq(b._sequence_counters[s], nxt[s]) for s in untouched],
+                           *[Eq(b._sequence_counters_copy[s], snap[s]) for s in snap]), dict(rp, clause="numbering"))
+        # --- an interruption before the next checkpoint
+        absent = w.choose([False, True], "the collect streams were created after the last checkpoint (no snapshot entry)")
+        if absent:
+            for s in streams:
+                del b._sequence_counters_copy[s]
+            w.cover("stream created after the checkpoint")
+        after = {s: b._sequence_counters[s] for s in streams}
+        rr = catch(I, I.getattr(b, "rewind"))
+        keeps = And(rr[0] == "ok", *[Eq(b._sequence_counters.get(s, 0), after[s]) for s in streams], Eq(b._sequence_counters.get("primary", 0), snap["primary"]))
+        w.check_kf(E_REW, keeps, KF_DECL, declared, dict(rp, clause="rewind", absent=absent))
+    return t
+
+
+for _kind in ("events", "pages"):
+    for _declared in (False, True):
+        _mk_collect(_kind, _declared)
+
+
+@task("collect.twin", PROP, twin="twin:the events handed over by a flyer all carry the same seq_num and do not advance the counter")
+def collect_twin(I):
+    w = I.w
+    env = Env(I)
+    collect_stubs(I, env)
+    b, uid = opened_bundler(I, env)
+    docs, order = hand_over_batch(w, "events", "a", ("fly", "fly"), {"fly": ["fx"]}, ("seq_num",))
+    fl = make_flyer("events", {"fly": {"fx": DK()}}, [docs, docs])
+    call_async(I, I.getattr(b, "collect"), MsgVal("collect", fl, (), {}, None))
+    nxt, snap = symbolic_state(I, env, b, ["fly"])
+    env.emitted.clear()
+    r = call_async(I, I.getattr(b, "collect"), MsgVal("collect", fl, (), {}, None))
+    pages = [d for n, d in env.emitted if n == "event_page"]
+    w.check("twin:the events handed over by a flyer all carry the same seq_num and do not advance the counter",
+            And(r[0] == "ok", len(pages) == 1, *[Eq(q, nxt["fly"]) for q in (pages[0]["seq_num"] if pages else [])], Eq(b._sequence_counters["fly"], nxt["fly"])))
+
+
 @task("close_run.num_events", PROP, functions=[f"{Q}.close_run"],
       expect=[f"{Q}.close_run#ensures[stop.num_events[s] == next(s) - 1 for every stream]"])
 def close_num_events(I):
@@ -210,13 +561,17 @@ def lemma(I):
     replayable = z3.Bool("replayable")
     inv = lambda n, s, h: z3.And(n >= 1, s >= 1, s <= n, n <= h, z3.Implies(z3.Not(replayable), n == h))
     n2, s2, h2 = z3.Ints("next2 snap2 hi2")
-    emit = z3.And(n2 == nxt + 1, s2 == snap, h2 == z3.If(nxt == hi, hi + 1, hi))        # seq_num = next; fills [1,hi) or extends it
+    width = z3.Int("width")
+    emit_one = z3.And(n2 == nxt + 1, s2 == snap, h2 == z3.If(nxt == hi, hi + 1, hi))    # seq_num = next; fills [1,hi) or extends it
+    # a collect handing over `width` events (numbered next .. next + width - 1) or a stream datum with seq_nums [next, next + width)
+    emit_many = z3.And(width >= 0, n2 == nxt + width, s2 == snap, h2 == z3.If(nxt + width > hi, nxt + width, hi))
+    emit = z3.Or(emit_one, emit_many)
     checkpoint = z3.And(n2 == nxt, s2 == nxt, h2 == hi)
     rew = z3.And(n2 == z3.If(replayable, snap, nxt), s2 == snap, h2 == hi)
     step = z3.Or(emit, checkpoint, rew)
     init = z3.And(nxt == 1, snap == 1, hi == 1)
-    no_gap = z3.Implies(emit, z3.And(nxt >= 1, nxt <= hi))                                # the emitted number is <= hi: never leaves a gap
-    fresh_for_never_replayed = z3.Implies(z3.And(emit, z3.Not(replayable)), nxt == hi)     # always a fresh number
+    no_gap = z3.Implies(emit, z3.And(nxt >= 1, nxt <= hi))                                # the first emitted number is <= hi: never leaves a gap
+    fresh_for_never_replayed = z3.Implies(z3.And(emit, z3.Not(replayable)), nxt == hi)     # always fresh numbers, contiguous with what was emitted
     w.check("lemma:C05.seq_nums are exactly 1..N, duplicates only after a rewind of a replayable stream",
             Sym(z3.And(z3.Implies(init, inv(nxt, snap, hi)),
                        z3.Implies(z3.And(inv(nxt, snap, hi), step), inv(n2, s2, h2)),
